@@ -17,7 +17,7 @@ theorem parseArgBody_render (tbl : FmtTable) (o : Option Str) (r : Role) (a : Ar
   rw [stripRole_render r a h]
   simp only []
   rw [splitModifier_render _ a h]
-  unfold specFields specAttrs fieldList
+  unfold specFields specAttrs specDefaultLit specBase specDefault fieldList
   cases hmod : a.mod with
   | plain =>
     simp only [modOf, bind, Except.bind, pure, Except.pure, splitType_render tbl o a h, typeOf]
